@@ -13,6 +13,7 @@ import (
 	"fmt"
 	"math/rand"
 	"os"
+	"strconv"
 	"strings"
 	"time"
 
@@ -394,6 +395,10 @@ func cmdIdl(args []string) int {
 			name := strings.Join(c.Chars, "")
 			var text string
 			switch {
+			case c.Kind == "ifacelen":
+				n, _ := strconv.Atoi(name)
+				name = "a." + strings.Repeat("b", n-2)
+				text = "interface " + name + "\nmethod M() -> ()\n"
 			case c.Kind == "iface":
 				text = "interface " + name + "\nmethod M() -> ()\n"
 			case c.Pos == "input":
@@ -410,7 +415,7 @@ func cmdIdl(args []string) int {
 				func() {
 					defer func() { recover() }()
 					switch {
-					case c.Kind == "iface":
+					case c.Kind == "iface" || c.Kind == "ifacelen":
 						g["name_kept"] = r.d.Name == name && len(r.d.Methods) == 1 && r.d.Methods[0].Name == "M"
 					case c.Pos == "input":
 						fs := r.d.Methods[0].In.Fields
